@@ -7,19 +7,22 @@ package main
 //     at pseudo-random points, reads everything the session writes, logs out,
 //   * the message store (memory or file) wrapped by a goroutine-safe logging store.
 // Op:   round store=mem|file persist=0|1 senders=N per=K early=0|1 reset=0|1|2 rr=R tr=T hb=H outcap=C seed=S
-// Obs:  ok <finalSender> <storedRanges|-> <accepted> <live> <event tokens…>      (or  stalled <stage>)
+// Obs:  ok <finalSender> <storedRanges|-> <accepted> <live> <event tokens…>   (or  stalled <stage> | panic | crashed)
 //   tokens (one total order: store events under the store wrapper's lock, wire events as the peer reads them):
 //     a<n>.<snew>.<0|1>  number n handed out, store's next number afterwards, message saved or only counted
 //     R                  store.Reset()
 //     w<n>f              first-time message n read from the connection
 //     w<n>d<r>           PossDup=Y message n (r = index of the ResendRequest answer it belongs to, 0 = none)
 //     L / U              begin / end of the answer to a ResendRequest (before its first, after its last PossDup message)
+//     X                  something that is not a FIX message was read from the connection
 // The verdict (Lean monitor `conc-mon` = MonitorC02 + final store + liveness) is a function of the line.
 // Schedules are sampled, not replayed: replaying the op re-runs a round with the same parameters and PRNG.
 import (
+	"bufio"
 	"bytes"
 	"fmt"
 	"os"
+	"os/exec"
 	"path/filepath"
 	"runtime"
 	"sort"
@@ -222,35 +225,43 @@ func (c *concImpl) build(store string, persist bool, reset int) *concSess {
 var concStores = []string{"mem", "file"}
 
 // take returns a running session of the wanted configuration.  run() sleeps until the next full second before it
-// serves its channels, so sessions are started in batches (all configurations at once) and the wait is shared.
+// serves its channels, so sessions are started well ahead of their use: every configuration has a FIFO of running
+// sessions that is topped up on every call, and the oldest one is handed out.
 func (c *concImpl) take(store string, persist bool, reset int) *concSess {
 	if c.pool == nil {
 		c.pool = map[string][]*concSess{}
 		c.tmp = filepath.Join(os.TempDir(), fmt.Sprintf("qfxh-conc-%d", os.Getpid()))
-		if w := os.Getenv("VERIF_WORK"); w != "" {
-			c.tmp = filepath.Join(w, fmt.Sprintf("conc-%d", os.Getpid()))
-		}
-	}
-	k := concKey(store, persist, reset)
-	if len(c.pool[k]) == 0 {
-		for _, s := range concStores {
-			n := 12
-			if s == "file" {
-				n = 3
-			}
-			for _, p := range []bool{true, false} {
-				for r := 0; r <= 2; r++ {
-					kk := concKey(s, p, r)
-					for len(c.pool[kk]) < n {
-						c.pool[kk] = append(c.pool[kk], c.build(s, p, r))
-					}
+		// file-store directories of sessions that were started ahead but never used by earlier runs
+		if old, err := filepath.Glob(filepath.Join(os.TempDir(), "qfxh-conc-*")); err == nil {
+			for _, d := range old {
+				if fi, err := os.Stat(d); err == nil && time.Since(fi.ModTime()) > 3*time.Minute {
+					os.RemoveAll(d)
 				}
 			}
 		}
 	}
+	for _, s := range concStores {
+		for _, p := range []bool{true, false} {
+			for r := 0; r <= 2; r++ {
+				n := 24
+				if s == "file" {
+					n = 6
+				} else if p && r == 0 {
+					n = 96
+				} else if p || r == 0 {
+					n = 40
+				}
+				kk := concKey(s, p, r)
+				for len(c.pool[kk]) < n {
+					c.pool[kk] = append(c.pool[kk], c.build(s, p, r))
+				}
+			}
+		}
+	}
+	k := concKey(store, persist, reset)
 	q := c.pool[k]
-	cs := q[len(q)-1]
-	c.pool[k] = q[:len(q)-1]
+	cs := q[0]
+	c.pool[k] = q[1:]
 	return cs
 }
 
@@ -262,6 +273,16 @@ type outMsgInfo struct {
 	seq, newSeq int
 	kind        string
 	dup         bool
+}
+
+// safeScan: a mutated engine that races on the send queue can hand over a torn slice header
+func safeScan(b []byte) (m outMsgInfo, ok bool) {
+	defer func() {
+		if recover() != nil {
+			ok = false
+		}
+	}()
+	return scanOut(b), true
 }
 
 func scanOut(b []byte) outMsgInfo {
@@ -295,6 +316,7 @@ type concPeer struct {
 	open      *rrReq
 	rid       int
 	highFirst int
+	nRead     int
 	firstSeen map[int]bool
 	answered  chan struct{}
 	logonSeen chan struct{}
@@ -305,8 +327,14 @@ type concPeer struct {
 
 func (p *concPeer) read(out <-chan []byte) {
 	for b := range out {
-		m := scanOut(b)
+		m, ok := safeScan(b)
 		p.mu.Lock()
+		p.nRead++
+		if !ok || m.kind == "" {
+			p.log.add("X")
+			p.mu.Unlock()
+			continue
+		}
 		if m.dup {
 			if p.open == nil && len(p.pending) > 0 {
 				r := p.pending[0]
@@ -350,6 +378,41 @@ func (p *concPeer) read(out <-chan []byte) {
 	close(p.closed)
 }
 
+// await waits for ch; it gives up when the event loop has ended, or when nothing at all has been read from the
+// connection for a while (a broken engine must not cost minutes), or after concStall.
+func (p *concPeer) await(ch <-chan struct{}, v *quickfix.VerifConcSession) string {
+	deadline := time.Now().Add(concStall)
+	last, lastChange := -1, time.Now()
+	tick := time.NewTicker(20 * time.Millisecond)
+	defer tick.Stop()
+	for {
+		select {
+		case <-ch:
+			return ""
+		case <-v.Done():
+			select {
+			case <-ch:
+				return ""
+			default:
+			}
+			if v.Panicked() != "" {
+				return "panic"
+			}
+			return "ended"
+		case <-tick.C:
+			p.mu.Lock()
+			n := p.nRead
+			p.mu.Unlock()
+			if n != last {
+				last, lastChange = n, time.Now()
+			}
+			if time.Since(lastChange) > 2*time.Second || time.Now().After(deadline) {
+				return "stalled"
+			}
+		}
+	}
+}
+
 func concInbound(seq int, kind string, extra ...string) []byte {
 	f := []string{"8=FIX.4.2", "35=" + kind, "49=TGT", "56=SND", "34=" + strconv.Itoa(seq), "52=@0"}
 	return wireBytes(append(f, extra...))
@@ -378,7 +441,7 @@ func pause(r *rng) {
 	}
 }
 
-const concStall = 20 * time.Second
+const concStall = 10 * time.Second
 
 func rangesOf(xs []int) string {
 	if len(xs) == 0 {
@@ -415,7 +478,7 @@ func (c *concImpl) round(kv map[string]string) string {
 		logoutSeen: make(chan struct{}), closed: make(chan struct{})}
 	go p.read(out)
 
-	var accepted int64
+	var accepted, senderPanics int64
 	var wg sync.WaitGroup
 	startSenders := func() {
 		for i := 0; i < senders; i++ {
@@ -423,6 +486,11 @@ func (c *concImpl) round(kv map[string]string) string {
 			wg.Add(1)
 			go func(i int) {
 				defer wg.Done()
+				defer func() {
+					if recover() != nil {
+						atomic.AddInt64(&senderPanics, 1)
+					}
+				}()
 				for j := 0; j < per; j++ {
 					m := quickfix.NewMessage()
 					m.Header.SetField(quickfix.Tag(35), quickfix.FIXString("D"))
@@ -437,9 +505,21 @@ func (c *concImpl) round(kv map[string]string) string {
 	}
 	sendersDone := make(chan struct{})
 	inSeq := 0
+	injectFailed := false
 	inject := func(kind string, extra ...string) {
 		inSeq++
-		v.Inject(concInbound(inSeq, kind, extra...))
+		b := concInbound(inSeq, kind, extra...)
+		done := make(chan struct{})
+		go func() { v.Inject(b); close(done) }()
+		if !waitCh(done, concStall) {
+			injectFailed = true
+		}
+	}
+	outcome := func(stage, why string) string {
+		if why == "panic" || v.Panicked() != "" || atomic.LoadInt64(&senderPanics) > 0 {
+			return "panic"
+		}
+		return "stalled " + stage
 	}
 	if early {
 		startSenders()
@@ -452,8 +532,8 @@ func (c *concImpl) round(kv map[string]string) string {
 	} else {
 		inject("A", "98=0", "108=30")
 	}
-	if !waitCh(p.logonSeen, concStall) {
-		return "stalled logon"
+	if w := p.await(p.logonSeen, v); w != "" {
+		return outcome("logon", w)
 	}
 	if !early {
 		startSenders()
@@ -498,13 +578,13 @@ func (c *concImpl) round(kv map[string]string) string {
 			p.pending = append(p.pending, rrReq{b, e})
 			p.mu.Unlock()
 			inject("2", "7="+strconv.Itoa(b), "16="+strconv.Itoa(e))
-			if !waitCh(p.answered, concStall) {
-				return "stalled resend"
+			if w := p.await(p.answered, v); w != "" {
+				return outcome("resend", w)
 			}
 		}
 	}
 	if !waitCh(sendersDone, concStall) {
-		return "stalled senders"
+		return outcome("senders", "")
 	}
 	// every number handed out since the last reset should reach the connection while the session is logged on
 	assignedNow := func() []int {
@@ -523,11 +603,19 @@ func (c *concImpl) round(kv map[string]string) string {
 	}
 	live := 0
 	if !early {
+		// wait until every number has been seen, or nothing new has arrived for a while (never assert timing:
+		// the verdict is the monitor's, on the recorded events)
 		live = 1
-		deadline := time.Now().Add(concStall)
+		lastCount, lastChange := -1, time.Now()
 		for {
 			missing := false
 			xs := assignedNow()
+			consecutive := true
+			for i := 1; i < len(xs); i++ {
+				if xs[i] != xs[i-1]+1 {
+					consecutive = false
+				}
+			}
 			p.mu.Lock()
 			for _, n := range xs {
 				if !p.firstSeen[n] {
@@ -535,20 +623,30 @@ func (c *concImpl) round(kv map[string]string) string {
 					break
 				}
 			}
+			count := len(p.firstSeen)
 			p.mu.Unlock()
-			if !missing || time.Now().After(deadline) {
+			if count != lastCount {
+				lastCount, lastChange = count, time.Now()
+			}
+			if !missing || !consecutive || time.Since(lastChange) > 1500*time.Millisecond {
 				break
 			}
 			time.Sleep(200 * time.Microsecond)
 		}
 	}
 	inject("5")
-	if !waitCh(p.closed, concStall) {
-		return "stalled logout"
+	if w := p.await(p.closed, v); w != "" {
+		return outcome("logout", w)
+	}
+	if injectFailed {
+		return outcome("inject", "")
 	}
 	v.StopAsync()
 	if !waitCh(v.Done(), concStall) {
-		return "stalled stop"
+		return outcome("stop", "")
+	}
+	if v.Panicked() != "" || atomic.LoadInt64(&senderPanics) > 0 {
+		return "panic"
 	}
 	// final store, read after the event loop has returned
 	sender := cs.store.inner.NextSenderMsgSeqNum()
@@ -568,7 +666,7 @@ func (c *concImpl) round(kv map[string]string) string {
 	return fmt.Sprintf("ok %d %s %d %d %s", sender, rangesOf(stored), atomic.LoadInt64(&accepted), live, strings.Join(toks, " "))
 }
 
-func (c *concImpl) exec(op string) string {
+func (c *concImpl) execDirect(op string) string {
 	w := strings.Fields(op)
 	if len(w) == 0 || w[0] != "round" {
 		return "bad-op"
@@ -629,6 +727,78 @@ func genConc(r *rng, tier string, idx int, o *out, do func(string) string) strin
 	return "conc"
 }
 
+// ---------------------------------------------------------------- crash isolation
+//
+// An engine whose locks have been removed races on slice headers and can corrupt the heap: the Go runtime then dies
+// with a fatal error that no recover() catches.  The rounds therefore run in a worker process (this same binary,
+// started with the pseudo-family "conc-worker"); a dead worker is the observation `crashed` of the round it was
+// running and the next round gets a fresh worker.
+
+type concSupervisor struct {
+	cmd *exec.Cmd
+	in  *bufio.Writer
+	out *bufio.Reader
+}
+
+func (c *concSupervisor) reset(string) {}
+
+func (c *concSupervisor) stop() {
+	if c.cmd != nil {
+		c.cmd.Process.Kill()
+		c.cmd.Wait()
+		c.cmd = nil
+	}
+}
+
+func (c *concSupervisor) exec(op string) string {
+	if c.cmd == nil {
+		cmd := exec.Command(os.Args[0], "conc-worker")
+		stdin, err1 := cmd.StdinPipe()
+		stdout, err2 := cmd.StdoutPipe()
+		if err1 != nil || err2 != nil || cmd.Start() != nil {
+			return "stalled worker"
+		}
+		c.cmd, c.in, c.out = cmd, bufio.NewWriter(stdin), bufio.NewReaderSize(stdout, 1<<20)
+	}
+	c.in.WriteString(op + "\n")
+	c.in.Flush()
+	type res struct {
+		line string
+		err  error
+	}
+	ch := make(chan res, 1)
+	go func() {
+		l, err := c.out.ReadString('\n')
+		ch <- res{l, err}
+	}()
+	select {
+	case r := <-ch:
+		if r.err != nil {
+			c.stop()
+			return "crashed"
+		}
+		return strings.TrimRight(r.line, "\n")
+	case <-time.After(8 * concStall):
+		c.stop()
+		return "stalled worker"
+	}
+}
+
+func concWorker() {
+	im := &concImpl{}
+	sc := bufio.NewScanner(os.Stdin)
+	sc.Buffer(make([]byte, 1<<20), 1<<26)
+	w := bufio.NewWriterSize(os.Stdout, 1<<20)
+	for sc.Scan() {
+		w.WriteString(im.execDirect(sc.Text()) + "\n")
+		w.Flush()
+	}
+}
+
 func init() {
-	families["conc"] = &family{newImpl: func() impl { return &concImpl{} }, gen: genConc}
+	if len(os.Args) > 1 && os.Args[1] == "conc-worker" {
+		concWorker()
+		os.Exit(0)
+	}
+	families["conc"] = &family{newImpl: func() impl { return &concSupervisor{} }, gen: genConc}
 }
